@@ -92,6 +92,41 @@ h_totals(void)
 	WITNESS();
 }
 
+/* (1c) real-seconds durations (%rS): the record carries the UTC-naive
+ * seconds (soft) and the leap seconds in between (corr, same direction);
+ * the plain seconds are the magnitude of soft, the real seconds the
+ * magnitude of soft + corr, for either order of the operands */
+void
+h_precalc_tai(void)
+{
+	ND(i32, vsoft);
+	ND(i32, vcorr);
+	durfmt_t f = {0};
+	struct dt_dtdur_s dur;
+	struct precalc_s p;
+	long int real;
+
+	ASSUME(vsoft > -(1 << 24) && vsoft < (1 << 24));
+	ASSUME(vcorr >= -3 && vcorr <= 3);
+	/* leap seconds lie between the two instants: same direction, and
+	 * fewer than the seconds */
+	ASSUME(vcorr == 0 || ((vcorr > 0) == (vsoft > 0) && (vsoft > 3 || vsoft < -3)));
+	f.has_sec = 1;
+	memset(&dur, 0, sizeof(dur));
+	dur.durtyp = DT_DURS;
+	dur.tai = 1;
+	dur.soft = vsoft;
+	dur.corr = vcorr;
+	p = precalc(f, dur);
+	CHECK(p.neg == (vsoft < 0), "sign flag says which operand is earlier");
+	CHECK(p.S == (vsoft < 0 ? -(long int)vsoft : (long int)vsoft), "%S of a real-seconds difference: the UTC-naive magnitude");
+	/* what the %rS printer adds on top */
+	real = p.S + __strf_abs_corr(dur, p.neg);
+	CHECK(real == (vsoft + vcorr < 0 ? -(long int)(vsoft + vcorr) : (long int)(vsoft + vcorr)),
+	      "%rS: the magnitude of the SI distance");
+	WITNESS();
+}
+
 /* (2) years / months / days from a ymd duration, with a time part */
 void
 h_precalc_ymd(void)
